@@ -183,6 +183,16 @@ func init() {
 		Rule: "one run = 2-12 hole-punching sessions between a scripted visitor and a scripted xtcp owner on real frps with generated NAT observations (equal/changing IPs and ports, edge ports, too few, malformed, public), right/wrong signatures, unknown proxies, and message orders (report before the owner's answer, duplicates, unknown session ids, silent owner); responses are checked for pairing, complementarity, mode rules, candidate ranges, third-party silence; finally the real MakeHole routine is run for both roles on an unfiltered simulated UDP network; distinct = distinct event-log hash",
 		Assume: []string{"STUN discovery is not simulated: observations are generated, and for the meet test they are the peers' real simulated addresses"},
 	})
+	reg(&propSpec{ID: "C05", Level: "exploration",
+		Batches: []batchSpec{
+			{Name: "l1", World: "wire", Weight: 6},
+			{Name: "l2", World: "wire", Weight: 2, Park: 0.003, Gos: 0.02},
+		},
+		Stub: []string{"network (simnet) with a byte tap on every connection accepted at the server's bind port", "echo / HTTP backend", "users", "scripted peers and a scripted TLS server (crypto/tls, independent of frp's transport code)", "clock"},
+		Real: append(append([]string{}, commonReal...), "pkg/transport TLS configuration, pkg/util/net TLS dial/listen wrappers, golib crypto + snappy streams"),
+		Rule: "one run = either (a) real frps + two real frpc (tcp, stcp + visitor, http with credentials) with a drawn configuration (TLS on/off, custom first byte, tcp/websocket, mux, pool, proxy encryption, compression) carrying per-run high-entropy markers as token, secret key, http password, proxy name and payload, after which every byte that crossed the client-server path is searched for the markers (raw and base64); or (b) a policy scenario: a server with forced TLS and/or a trusted CA against scripted peers (plaintext, TLS without / with rogue / with good certificate, all 256 first bytes followed by a plaintext login), or a real frpc with trusted CA + server name against a scripted TLS server with the right identity, a rogue-CA identity or another name; distinct = distinct event-log hash",
+		Assume: []string{"kcp, quic and wss transports are not simulated", "a marker is searched raw and base64-encoded only; other reversible encodings of a secret would not be noticed"},
+	})
 	reg(&propSpec{ID: "C14", Level: "fault_enumeration",
 		Batches: []batchSpec{
 			{Name: "l1", World: "liveness", Weight: 6},
